@@ -2390,7 +2390,7 @@ def run_session_impl(case, sv):
 def eval_sessions(ctx, cases, batch=12):
     sv = sv_layout()
     for i in range(0, len(cases), batch):
-        items, reqs = [], []
+        items, reqs, lost_entries = [], [], []
         for case in cases[i:i + batch]:
             steps = []
             ran, changed = run_session_impl(case, sv)
@@ -2402,8 +2402,22 @@ def eval_sessions(ctx, cases, batch=12):
                                       "it is at this call): " % (k + 1, len(case["steps"]), what))
                 steps.append((st, len(reqs), len(reqs) + len(rq), info))
                 reqs += rq
+                # a load that FAILED (network fault, refused allocation) may leave its own block in any state, but the
+                # entries that earlier loads had installed - which the application still relies on - must still be in
+                # the router, in their rows, under their owner
+                if res["outcome"] != "ok" and not (isinstance(res["outcome"], list) and res["outcome"][0] == "hang"):
+                    for xy, rows in res["rows0"].items():
+                        after = {r[0]: r for r in res["rows1"].get(xy, [])}
+                        gone = [r for r in rows if r[4] is not None and
+                                (r[0] not in after or after[r[0]][4] != r[4] or after[r[0]][3] != r[3])]
+                        if gone:
+                            lost_entries.append((case, k, xy, gone[:3], len(gone), res["outcome"]))
             items.append((case, steps, changed))
         out = ctx.lean(reqs)
+        for case, k, xy, gone, n_gone, outcome in lost_entries:
+            ctx.violation("failed-load-removed-installed-entries",
+                          "step %d of the session failed (%r) and took %d entries that earlier loads had installed out of the "
+                          "router of chip %r (rows [index, next, free, owner, entry]: %r ...)" % (k + 1, outcome, n_gone, xy, gone), case)
         for case, steps, changed in items:
             nontrivial = False
             for k, xy, j, was, now in changed:
